@@ -10,7 +10,7 @@ THEOREMS = ['Pistache.WriteQueue.Props.' + t for t in ('inv_run', 'no_loss_no_du
 SIZES = [0, 1, 2, 7, 100, 511, 512, 513, 4096, 5000, 65536, 70000]
 
 def gen(tier, rnd):
-    L = ['wr L m1000 300,B,200', 'wr F m100,f300,m50 10,B,B,50', 'wr L m10 -', 'wr L m0 -', 'wr L m5,m0,m5 1,B,1']
+    L = ['wr FL m40,m60 -', 'wr LFL m10,f700,m30 5,B,100', 'wr L m1000 300,B,200', 'wr F m100,f300,m50 10,B,B,50', 'wr L m10 -', 'wr L m0 -', 'wr L m5,m0,m5 1,B,1']
     N = 250 if tier == 'quick' else 5000
     for _ in range(N):
         k = rnd.choice([1, 1, 2, 3, 4, 6])
@@ -24,7 +24,13 @@ def gen(tier, rnd):
             if r < .3: sc.append('B')
             elif r < .4: sc.append('1')
             else: sc.append(str(rnd.choice([1, 2, 10, 100, 500, 1000, 4096, 100000])))
-        L.append('wr %s %s %s' % (rnd.choice('LF'), ','.join(ws), ','.join(sc) or '-'))
+        mode = rnd.choice('LF')
+        if k >= 2 and rnd.random() < .35:
+            # mixed issuing threads on one connection (at least one of each)
+            while True:
+                mode = ''.join(rnd.choice('LF') for _ in range(k))
+                if 'L' in mode and 'F' in mode: break
+        L.append('wr %s %s %s' % (mode, ','.join(ws), ','.join(sc) or '-'))
     return L
 
 BAD = ('ASAN', 'UBSAN', 'HANG', 'CRASH', 'TERMINATE', 'MISSING', 'bad-op', 'connect-failed')
@@ -50,7 +56,7 @@ def classify(ln, out):
     w = ln.split()
     return (w[1], tuple(t[0] + str(int(t[1:]).bit_length()) for t in w[2].split(',')), tuple('B' if x == 'B' else 'c' for x in w[3].split(',')) if w[3] != '-' else ())
 
-RULE = ('1..6 writes per connection (memory and file buffers, sizes 0..70000 incl. buffer-size boundaries) issued from the loop thread or from a foreign thread through Transport::asyncWrite on a live endpoint, '
+RULE = ('1..6 writes per connection (memory and file buffers, sizes 0..70000 incl. buffer-size boundaries) issued from the loop thread, from a foreign thread, or alternately from both (each foreign issue joined before the next write) through Transport::asyncWrite on a live endpoint, '
         'with the socket write calls (send/sendfile) scripted through the write hook: any sequence of would-block results and caps of 1..100000 bytes; the bytes read by the peer are compared with the concatenation '
         'of the buffers, each promise\'s settlement count and value are recorded; the sequence of write calls (offered, accepted) is compared with the model. non-trivial = distinct (thread, write kinds/size classes, outcome pattern)')
 ASSUME = ['the peer stays connected and reads', 'loopback socket buffers are larger than the sizes used, so the only short writes / would-block results are the scripted ones',
